@@ -2087,6 +2087,13 @@ func (r *Raft) electSelf() <-chan *voteResult {
 	newTerm := r.getCurrentTerm() + 1
 
 	r.setCurrentTerm(newTerm)
+
+	// Nobody is known to lead the new term. A heartbeat of the previous term
+	// that was handled on the transport's own goroutine (fast path) since we
+	// became a candidate may have named its sender as our leader; from here on
+	// such a heartbeat is refused as stale.
+	r.setLeader("", "")
+
 	// Construct the request
 	lastIdx, lastTerm := r.getLastEntry()
 	req := &RequestVoteRequest{
